@@ -61,6 +61,7 @@ theorem fold_ok (f : String) (hf : compileCalls.contains f = false) :
       exact ih s hb he hw h3
     | note n => exact ih s hb he hw hs
     | lp _ _ => exact absurd hs (by simp [segOk])
+    | il _ _ => exact absurd hs (by simp [segOk])
     | cvp _ _ _ => exact absurd hs (by simp [segOk])
     | sn _ _ => exact absurd hs (by simp [segOk])
     | inc _ _ _ _ => exact absurd hs (by simp [segOk])
@@ -129,6 +130,7 @@ theorem segOk_mono (f : String) : ∀ (evs : List Ev) (apps apps' : List Approva
       exact ⟨a, hsub a ha, hk⟩
     | note n => exact ih _ _ hsub h
     | lp _ _ => exact absurd h (by simp [segOk])
+    | il _ _ => exact absurd h (by simp [segOk])
     | cvp _ _ _ => exact absurd h (by simp [segOk])
     | sn _ _ => exact absurd h (by simp [segOk])
     | inc _ _ _ _ => exact absurd h (by simp [segOk])
@@ -157,6 +159,7 @@ theorem segOk_append (f : String) : ∀ (e1 e2 : List Ev) (apps : List Approval)
       exact ⟨a, b, ih e2 _ c h2⟩
     | note n => exact ih e2 _ h1 h2
     | lp _ _ => exact absurd h1 (by simp [segOk])
+    | il _ _ => exact absurd h1 (by simp [segOk])
     | cvp _ _ _ => exact absurd h1 (by simp [segOk])
     | sn _ _ => exact absurd h1 (by simp [segOk])
     | inc _ _ _ _ => exact absurd h1 (by simp [segOk])
@@ -497,6 +500,7 @@ theorem segOk_prefix (f : String) : ∀ (e1 e2 : List Ev) (apps : List Approval)
     | fs fn w p => obtain ⟨a, b, c⟩ := h; exact ⟨a, b, ih e2 _ c⟩
     | note n => exact ih e2 _ h
     | lp _ _ => exact absurd h (by simp [segOk])
+    | il _ _ => exact absurd h (by simp [segOk])
     | cvp _ _ _ => exact absurd h (by simp [segOk])
     | sn _ _ => exact absurd h (by simp [segOk])
     | inc _ _ _ _ => exact absurd h (by simp [segOk])
@@ -618,6 +622,7 @@ theorem fold_absent (f : String) : ∀ (evs : List Ev) (apps : List Approval) (s
       simp only [Ev.isValid, Bool.not_false, List.filter_cons_of_pos, List.foldl_cons]
       exact ih apps s ha hs
     | lp _ _ => exact absurd hs (by simp [segOk])
+    | il _ _ => exact absurd hs (by simp [segOk])
     | cvp _ _ _ => exact absurd hs (by simp [segOk])
     | sn _ _ => exact absurd hs (by simp [segOk])
     | inc _ _ _ _ => exact absurd hs (by simp [segOk])
